@@ -70,6 +70,66 @@ func c14Roundtrip(W, L int) {
 	rt.Reach("end")
 }
 
+// c14Reuse: decoding into a receiver that already holds another automaton (decoded
+// earlier or built by New) must give exactly what decoding into a fresh receiver gives.
+func c14Reuse(W, L int) {
+	first := dwWords(W, L)
+	d1, err := New(first)
+	if err != nil {
+		rt.Fail("New failed")
+		return
+	}
+	words := dwWords(W, L)
+	orig := dwCopyWords(words)
+	d, err := New(words)
+	if err != nil {
+		rt.Fail("New failed")
+		return
+	}
+	enc, err := d.GobEncode()
+	rt.Check(err == nil, "GobEncode failed")
+	if err != nil {
+		return
+	}
+	enc0 := append([]byte{}, enc...)
+	recv := d1
+	if rt.Choice("receiver", 2) == 1 {
+		enc1, err := d1.GobEncode()
+		rt.Check(err == nil, "GobEncode failed")
+		if err != nil {
+			return
+		}
+		recv = new(Dawg)
+		if recv.GobDecode(enc1) != nil {
+			rt.Fail("GobDecode failed on GobEncode output")
+			return
+		}
+	}
+	p, msg := rt.Panics(func() { err = recv.GobDecode(enc) })
+	rt.Check(!p, "GobDecode into a used receiver panicked: "+msg)
+	if p {
+		return
+	}
+	rt.Check(err == nil, "GobDecode into a used receiver failed")
+	if err != nil {
+		return
+	}
+	dwCheckIndex(recv, orig, L+1, "decoded into a used receiver")
+	rt.Check(recv.numberOfNodes() == d.numberOfNodes(), "decoded into a used receiver: different node count")
+	enc2, err := recv.GobEncode()
+	rt.Check(err == nil, "re-encode failed")
+	rt.Check(len(enc2) == len(enc0), "decoded into a used receiver: re-encoding has a different length")
+	if len(enc2) == len(enc0) {
+		for i := range enc2 {
+			rt.Check(enc2[i] == enc0[i], "decoded into a used receiver: re-encoding differs")
+		}
+	}
+	rt.Reach("end")
+}
+
+func H_c14_reuse_q() { c14Reuse(2, 1) }
+func H_c14_reuse_t() { c14Reuse(3, 2) }
+
 func H_c14_roundtrip_q() { c14Roundtrip(3, 2) }
 func H_c14_roundtrip_t() { c14Roundtrip(4, 3) }
 
